@@ -444,7 +444,12 @@ namespace occa {
       buffer *buf = new serial::buffer(this, bytes, props);
 
       if (src && props.get("use_host_pointer", false)) {
-        buf->wrapMemory(src, bytes);
+        /*
+        The caller's buffer is the allocation.  It is not wrapped memory:
+        device::malloc counts its bytes, so ~modeBuffer_t has to subtract
+        them, and ~buffer releases it according to own_host_pointer
+        */
+        buf->ptr = (char*) const_cast<void*>(src);
       } else {
         buf->malloc(bytes);
       }
